@@ -340,7 +340,16 @@ class Frame(object):
         # add back the waterfall object.
         waterfall = self.get_waterfall()
         if waterfall is not None:
-            c_frame.waterfall = copy.deepcopy(waterfall)
+            # An open h5py file handle can't be deep-copied; detach it while copying
+            container = getattr(waterfall, 'container', None)
+            h5 = getattr(container, 'h5', None)
+            if h5 is not None:
+                del container.h5
+            try:
+                c_frame.waterfall = copy.deepcopy(waterfall)
+            finally:
+                if h5 is not None:
+                    container.h5 = h5
         return c_frame
 
     def __getstate__(self):
